@@ -308,8 +308,11 @@ class AccessorUnit(Unit):
         else:
             ex.oblige(f'C10.view: {acc} result is {"writable" if want_rw else "read-only"}', zbv(res_wr) == z3.BoolVal(want_rw))
         cur = f.f['_Frame__image']
-        ex.oblige(f'C10.fresh: {acc} result shares no memory with its source', vi is not src_img0 and vi is not cur
-                  and not IM.shares_memory_with(vi, src_img0) and not (isinstance(cur, Obj) and IM.shares_memory_with(vi, cur)))
+        if want_rw is not None:
+            # only rw / ro / rw_* / ro_* are documented as "NEW Frame with NEW image"; rgb / bgr / gray promise the conversion with the same writability, and a
+            # live view of the source keeps that promise (it shows the source's pixels at every moment), so the statement does not forbid sharing there
+            ex.oblige(f'C10.fresh: {acc} result shares no memory with its source', vi is not src_img0 and vi is not cur
+                      and not IM.shares_memory_with(vi, src_img0) and not (isinstance(cur, Obj) and IM.shares_memory_with(vi, cur)))
         ex.oblige(f'C10.view: {acc} keeps the data dict', v.f['_Frame__data'] is f.f['_Frame__data'])
 
     def replay(self, failure):
